@@ -132,7 +132,7 @@ def gen(rng, n, tier):
                 p = gen_pairs(rng, rng.randint(1, 5), gapped=rng.random() < 0.4, scale=rng.choice(SCALES))
                 c.append(["given", p]); c.append(["as_edges", "T" if all(p[k][1] == p[k + 1][0] for k in range(len(p) - 1)) and rng.random() < 0.5 else "F"])
             if meth in ("scott", "freedman", "blocks"): c.append(["sorted", sorted(data)])
-            c.append(["via", rng.choice(["factory", "calculate_1d_bins"])])
+            c.append(["via", rng.choice(["factory", "calculate_1d_bins"] + (["h2", "h2"] if meth == "fixed_width" and rngarg == "none" and len(data) >= 2 else []))])
             yield c
             if meth == "numpy" and rng.random() < 0.25:
                 # a range too narrow for the bins: values a few representable numbers apart
@@ -197,6 +197,7 @@ def build(spec):
     if k == "exp": return B.ExponentialBinning(float(spec[1]), float(spec[2]), spec[3])
     raise KeyError(k)
 
+def rng_pick(d): return len(d["data"]) % 2
 def _tf(b): return "T" if b else "F"
 def _try(f):
     try: return f()
@@ -289,7 +290,11 @@ def impl(case):
                     kw2 = dict(kw, bin_width=float(d["bin_width"]), includes_right_edge=d["incl"] == "T")
                     if d["shift_arg"] != "none": kw2["bin_shift"] = float(d["shift_arg"])
                     if d["align"] == "F": kw2["align"] = False
-                    b = B.fixed_width_binning(data, **kw2) if via == "factory" else calculate_1d_bins(data, "fixed_width", **kw2)
+                    if via == "h2":      # the same request through the N-d entry point: each axis gets what the 1-d factory gives
+                        import physt
+                        b = physt.h2(data, data, "fixed_width", **kw2)._binnings[rng_pick(d)]
+                    else:
+                        b = B.fixed_width_binning(data, **kw2) if via == "factory" else calculate_1d_bins(data, "fixed_width", **kw2)
                 elif meth == "fixed_min":
                     b = B.FixedWidthBinning(bin_width=float(d["bin_width"]), bin_count=d["bin_count"], min=float(d["min"]))
                 elif meth == "integer":
